@@ -152,7 +152,10 @@ HARNESSES = [
          funcs=["vf_real_main", "try_open_fs", "check_mount"],
          configs=[{"ERR": e} for e in ("EXT2_ET_BAD_MAGIC", "EXT2_ET_CORRUPT_SUPERBLOCK", "EXT2_ET_SB_CSUM_INVALID",
                                         "EXT2_ET_BAD_DESC_SIZE", "EBUSY", "EROFS", "EXT2_ET_SHORT_READ")] +
-                 [{"ERR": "EXT2_ET_UNSUPP_FEATURE", "FEAT": 0}, {"ERR": "EXT2_ET_UNSUPP_FEATURE", "FEAT": "0x40000000"}],
+                 [{"ERR": "EXT2_ET_UNSUPP_FEATURE", "FEAT": 0}, {"ERR": "EXT2_ET_UNSUPP_FEATURE", "FEAT": "0x40000000"}] +
+                 # C20: the -b block-size probe of try_open_fs hits at 1024 << PROBE_K (C13 quick: the two ends; mirror all 7 into C20)
+                 [{"ERR": "EXT2_ET_BAD_MAGIC", "PROBE_K": 6}, {"ERR": "EXT2_ET_BAD_MAGIC", "PROBE_K": 0}] +
+                 [{"ERR": "EXT2_ET_BAD_MAGIC", "PROBE_K": k, "_tier": "thorough"} for k in (1, 2, 3, 4, 5)],
          unwind=4, unwindset=["try_open_fs.0:9", "reserve_stdio_fds.0:3"] + ["vf_real_main.%d:34" % i for i in range(4, 16)],
          backends=["default", "kissat"],
          bound="ctx->options: every word PRS() can produce; -b superblock, -B blocksize, interactive, -z undo file, mount flags, "
